@@ -305,7 +305,7 @@ def main():
     for k in ("localmaxlabel", "sparse_image", "blobs"): mod.load(ir[k])
     iro = common.build_ir(["localmaxlabel"], openmp=True); modo = Module(); modo.load(iro["localmaxlabel"])
     ck.encoded("src/localmaxlabel.c:neighbormax", "src/localmaxlabel.c:localmaxlabel (sequential IR and the three OpenMP constructs of the -fopenmp IR)", "src/sparse_image.c:sparse_localmaxlabel")
-    shapes = [(3, 3), (3, 4), (4, 3)] + ([(4, 4), (3, 5)] if thorough else [])
+    shapes = [(3, 3), (3, 4), (4, 3)] + ([(3, 5)] if thorough else [])      # (4, 4) symbolic ran beyond an hour
     ck.bound("sequential: symbolic images of shapes %s, pixels within distance 2 pairwise distinct, arbitrary previous content of labels and wrk" % shapes,
              "sparse: symbolic sorted coordinates in a 3x3 grid, nnz <= %d, distinct values; steepest-ascent relation quantified by the solver" % (4 if thorough else 3),
              "row loops: alias queries on two abstract iterations, no bound on image size or threads",
@@ -370,7 +370,7 @@ def main():
     ramp = lambda ns, nf: [j * 10 + (5 if i == 1 else i) for i in range(ns) for j in range(nf)]   # row 1 is a ridge rising to the right border: one long ascent chain across the thread blocks
     hill = lambda ns, nf: [100 - (2 * i - ns) ** 2 - (j - nf // 2) ** 2 * 3 + (i * nf + j) * 0.01 for i in range(ns) for j in range(nf)]
     cases = [((3, 5), ramp(3, 5), 2), ((4, 4), ramp(4, 4), 3), ((3, 6), [-x for x in ramp(3, 6)], 2), ((4, 4), hill(4, 4), 2)]
-    if thorough: cases += [((3, 7), ramp(3, 7), 2), ((4, 5), hill(4, 5), 3), ((3, 5), ramp(3, 5), 3), ((4, 5), ramp(4, 5), 3)]
+    if thorough: cases += [((3, 7), ramp(3, 7), 2), ((4, 5), hill(4, 5), 3)]
     _TJOBS.clear()
     for n_, ((ns, nf), img, mx) in enumerate(cases): _TJOBS[n_] = (modo, ns, nf, img, maxsw, mx, 2)
     res = common.pmap(_tjob, list(range(len(cases))))
